@@ -2,6 +2,7 @@ package vnet
 
 import (
 	"context"
+	"io"
 	"net"
 	"net/netip"
 	"strings"
@@ -125,3 +126,62 @@ func (w *World) PeerDialUDP(label string, src netip.Addr, address string) (*UDPC
 func (w *World) DialProxy(ctx context.Context, network, address string) (net.Conn, error) {
 	return w.dial(ctx, OwnerProxy, "", netip.Addr{}, network, address)
 }
+
+// Buffers replaces net.Buffers.  On a simulated stream socket WriteTo is one
+// atomic write of all the buffers (the kernel's writev under the descriptor's
+// write lock); on any other writer - a *tls.Conn, say - it is one Write per
+// buffer, as in package net.
+type Buffers [][]byte
+
+func (v *Buffers) WriteTo(w io.Writer) (n int64, err error) {
+	if sc, ok := w.(*StreamConn); ok {
+		var all []byte
+		for _, b := range *v {
+			all = append(all, b...)
+		}
+		nn, err := sc.Write(all)
+		v.consume(int64(nn))
+		return int64(nn), err
+	}
+	for i, b := range *v {
+		if h := SyscallYield; h != nil && i > 0 {
+			h()
+		}
+		nb, err := w.Write(b)
+		n += int64(nb)
+		if err != nil {
+			v.consume(n)
+			return n, err
+		}
+	}
+	v.consume(n)
+	return n, nil
+}
+
+func (v *Buffers) consume(n int64) {
+	for len(*v) > 0 {
+		ln0 := int64(len((*v)[0]))
+		if ln0 > n {
+			(*v)[0] = (*v)[0][n:]
+			return
+		}
+		n -= ln0
+		(*v)[0] = nil
+		*v = (*v)[1:]
+	}
+}
+
+func (v *Buffers) Read(p []byte) (n int, err error) {
+	for len(p) > 0 && len(*v) > 0 {
+		n0 := copy(p, (*v)[0])
+		v.consume(int64(n0))
+		p = p[n0:]
+		n += n0
+	}
+	if len(*v) == 0 {
+		err = errEOF
+	}
+	return
+}
+
+var errEOF = io.EOF
